@@ -237,9 +237,12 @@ def check_C01(run):
             n += 1
     cmds = with_group_resets(groups)
     run.samples = groups[0][:2] + groups[len(groups) // 2][:2]
+    futs = [start_model_check(run, *m[0], **m[1]) for m in (MC_WIRE, mc_session(run))]
     trace = vf.exec_commands(run, exe, cmds, 'c01')
     rejected = vf.tlc_validate(run, 'TrCodec', 'TrCodec.cfg', trace, env_for('C01', types_path))
     add_rejections(run, rejected, key_codec('C01'), index_cmds(cmds))
+    for f in futs:
+        f.result()
     return vf.finish(run, rule='every pool type x boundary/random values, 1-3 consecutive values per stream, writer/reader '
                                'pairings rotated over all kinds; distinct = distinct (type, writer, reader, values)')
 
@@ -281,15 +284,29 @@ def handle_opts(S, w=None, r=None):
 
 def run_codec(run, prop, cmds, flavour='plain', mc=None):
     exe, types_path = vf.get_exe(run, flavour)
-    fut = start_model_check(run, *mc[0], **mc[1]) if mc else None
-    trace = vf.exec_commands(run, exe, cmds, prop.lower())
+    futs = []
+    if mc:
+        mcs = mc if isinstance(mc, list) else [mc]
+        for m in mcs:
+            futs.append(start_model_check(run, *m[0], **m[1]))
+    trace = vf.exec_commands(run, exe, cmds, prop.lower() + flavour)
     rejected = vf.tlc_validate(run, 'TrCodec', 'TrCodec.cfg', trace, env_for(prop, types_path))
     add_rejections(run, rejected, key_codec(prop), index_cmds(cmds))
-    if fut:
-        fut.result()
+    for f in futs:
+        f.result()
 
 
 MC_WIRE = (('MC_Wire', 'MC_Wire.cfg'), {"workers": 8, "timeout": 900})
+
+
+def mc_session(run):
+    cfg = 'MC_Session_thorough.cfg' if run.tier == 'thorough' else 'MC_Session.cfg'
+    return (('MC_Session', cfg), {"workers": 8, "timeout": 1800})
+
+
+def mc_lang(run):
+    cfg = 'MC_Lang_thorough.cfg' if run.tier == 'thorough' else 'MC_Lang.cfg'
+    return (('MC_Lang', cfg), {"workers": 8, "timeout": 1800})
 
 
 def pick(seq, n, rng):
@@ -322,7 +339,7 @@ def check_C05(run):
             run.distinct.add((tid, vf.digest(v)))
     cmds = with_group_resets(groups)
     run.samples = groups[0] + groups[-1]
-    run_codec(run, 'C05', cmds, mc=MC_WIRE)
+    run_codec(run, 'C05', cmds, mc=[MC_WIRE, mc_session(run)])
     run.exhaustive = False
     return vf.finish(run, rule='every pool type x values x EVERY cut position x every reader kind (buffer, pedantic, '
                                'stringstream, ifstream, fd, BoundedReader over each); distinct = distinct (type, value)')
@@ -544,6 +561,43 @@ def hostile_cmds(run, types, thorough, for_c02):
                     item["inspect"] = 1
                 g.append({"c": "r", "rk": rk, "src": "last", "items": [item], "nolog": 1, "tag": {"cat": True}})
         groups.append(g)
+    # TLC-generated field-level mutants (Hostile.tla): every integer field of a valid encoding re-encoded in every
+    # other class of the integer format and with overflowing / off-by-one / huge values
+    pairs = []
+    for tid, vs in per_type.items():
+        S = types[tid]
+        if S["k"] == "ref":
+            continue
+        for v in (vs[:2] if thorough else vs[:1]):
+            if len(json.dumps(v)) < 400:
+                pairs.append([tid, v])
+    if pairs:
+        vpath = os.path.join(run.work, 'hostile_vals_%d.json' % len(run.phases))
+        with open(vpath, 'w') as f:
+            json.dump(pairs, f)
+        os.environ["VALS"] = vpath
+        os.environ["TYPES"] = run.types_path
+        fm = vf.tlc_generate(run, 'Gen_Hostile', {}, timeout=900, label='hostile')
+        g = []
+        big = ("plus2^32", "2^32", "2^63", "max", "double")
+        for i, m in enumerate(fm):
+            rk = (rks_c02 if for_c02 else rks_c04)[i % 5]
+            if m["label"][0] == "value" and m["label"][2] in big and not for_c02 and (i % 40):
+                # multi-gigabyte lengths on readers whose Ensure() cannot check are a recorded finding and cost
+                # seconds each (the allocation succeeds): all but every 40th go to the checking readers
+                rk = ["pedantic", "buffer", {"bounded": "pedantic", "limit": BIGCAP}][i % 3]
+            if isinstance(rk, dict) and rk.get("limit", 0) < BIGCAP:
+                rk = {"bounded": rk["bounded"], "limit": BIGCAP}
+            item = {"tid": m["tid"]}
+            if for_c02:
+                item["inspect"] = 1
+            g.append({"c": "r", "rk": rk, "src": {"b": m["b"]}, "items": [item], "nolog": 1,
+                      "tag": {"cat": True, "label": m["label"]}})
+            if len(g) >= 50:
+                groups.append(g)
+                g = []
+        if g:
+            groups.append(g)
     # short arbitrary strings over a hostile alphabet, read as every type
     alpha = [0x00, 0x01, 0x7f, 0x80, 0x81, 0x84, 0xb5, 0xb9, 0xba, 0xbc, 0xbd, 0xbe, 0xc0, 0xff]
     for tid, S in types.items():
@@ -563,11 +617,12 @@ def hostile_cmds(run, types, thorough, for_c02):
 
 def check_C04(run):
     exe, types_path = vf.get_exe(run, 'plain')
+    run.types_path = types_path
     types = load_types(types_path)
     groups = hostile_cmds(run, types, run.tier == 'thorough', for_c02=False)
     cmds = with_group_resets(groups, 4)
     run.samples = groups[0][:3]
-    run_codec(run, 'C04', cmds, mc=MC_WIRE)
+    run_codec(run, 'C04', cmds, mc=[MC_WIRE, mc_lang(run)])
     return vf.finish(run, rule='valid encodings of every pool type damaged by single-byte replacement at every leading position '
                                '(incl. all 256 prefix bytes), multi-byte splices/erasures/truncations, and short strings over a '
                                'hostile alphabet; accept/reject, value, consumed length compared with Dec of Wire.tla; category '
@@ -576,6 +631,7 @@ def check_C04(run):
 
 def check_C02(run):
     exe, types_path = vf.get_exe(run, 'asan')
+    run.types_path = types_path
     types = load_types(types_path)
     groups = hostile_cmds(run, types, run.tier == 'thorough', for_c02=True)
     cmds = with_group_resets(groups, 4)
@@ -600,6 +656,12 @@ def io_ops(seq, side, k):
     ops = []
     for j, c in enumerate(seq):
         o = {"op": c["op"], "n": io_size(c["n"])}
+        # block transfers are made with element widths 1/2/4/8 when the size is a multiple of the width
+        if c["op"] in ("rn", "wn") and c["n"] > 0:
+            for wdt in (8, 4, 2):
+                if c["n"] % wdt == 0 and (k + j) % 2 == 0:
+                    o["w"] = wdt
+                    break
         if side == "w":
             o["pad"] = (0x00, 0xAA, 0xFF)[(k + j) % 3]
             o["seed"] = (17 * (k + 1) + 29 * j) % 251
@@ -609,6 +671,8 @@ def io_ops(seq, side, k):
 
 def key_io(prop):
     def fn(ev, why, cmd=None):
+        if ev.get("e") == "CT":
+            return '%s|CT|%s' % (prop, ','.join(why)), 'compile-time serialisation cases violate: %s' % ', '.join(why)
         if ev.get("e") != "IO":
             return abnormal_key(prop, ev, why, cmd)
         k = '%s|IO|%s|%s|%s' % (prop, ev.get("side"), ev.get("kind"), ','.join(why))
@@ -643,7 +707,7 @@ def random_sequences(rng, side, count, length):
         s = []
         for _ in range(length):
             op = rng.choice(ops)
-            n = rng.choice([0, 1, 1, 2, 3, 4, 5, 8, 9, -1, -2, -9])
+            n = rng.choice([0, 1, 1, 2, 3, 4, 4, 5, 8, 8, 9, 16, -1, -2, -9])
             if op in ("r1", "w1", "pad", "padw"):
                 n = 1
             if op in ("rn", "wn") and n < 0:
@@ -663,7 +727,7 @@ def check_C16(run):
     for side in ("r", "w"):
         full, sample = seqs[side]
         kinds = ["pedantic", "buffer", "sstream", "fd"] if side == "r" else ["pedantic", "buffer", "constexpr", "sstream", "fd"]
-        configs = [(kind, lim, ln, fk) for kind in kinds for lim in range(0, 6) for ln in (0, 1, 3, 4) for fk in (0, 1, 2)]
+        configs = [(kind, lim, ln, fk) for kind in kinds for lim in (0, 1, 2, 3, 4, 5, 9) for ln in (0, 1, 3, 4, 12) for fk in (0, 1, 2)]
         def emit(seq, cfg):
             nonlocal k
             kind, lim, ln, fk = cfg
@@ -741,6 +805,7 @@ def check_C17(run):
                             c["cap"] = ln
                         cmds.append(c)
                         k += 1
+    cmds.append({"c": "ct"})      # 67 generated constexpr values serialised in constant expressions and at run time
     cmds = with_resets(cmds, 200)
     run.samples = [c for c in cmds if c.get("c") == "io"][:2] + [c for c in cmds if c.get("side") == "w"][:1]
     run.distinct = set(vf.digest(c) for c in cmds)
@@ -1065,7 +1130,7 @@ def check_C07(run):
     types = load_types(types_path)
     thorough = run.tier == 'thorough'
     rng = random.Random(run.seed)
-    fut = start_model_check(run, 'MC_Tables', 'MC_Tables.cfg', workers=8, timeout=1500)
+    fut = start_model_check(run, 'MC_Tables', 'MC_Tables_thorough.cfg' if thorough else 'MC_Tables.cfg', workers=8, timeout=2400)
     vts = [t for t in types if is_vpool(t)]
     placed = [t for t in types if t.startswith('S_TV_')] + [t for t in types if t.startswith('vec<TV_')]
     groups = []
